@@ -1,3 +1,260 @@
-"""placeholder until the Cython front end lands"""
+"""Contracts for whatshap/priorityqueue.pyx (C18, C07): binary max-heap of (score vector, item) with a position map.
+
+Model (what the Cython extraction keeps / drops is stated in vcgen/fe_cython.py):
+  heap      : vector[pair[priority_type_ptr, item_type]]  ->  LIST(TUPLE(REF Score, INT)); sc(i), it(i) its components
+  positions : unordered_map[item_type, int]                ->  DICT(INT, INT)
+  Score     : the target of a priority_type_ptr, an immutable vector<int> (field data); pointer identity/ownership dropped
+Order: LOWER(a, b) is an abstract strict weak order on scores (irreflexive, transitive, negatively transitive).  That the lexicographic
+order computed by _vector_score_lower IS such an order is the Mathlib fact recorded in lemmas/LexOrder.lean (trusted here); the function
+itself is verified against the lexicographic definition LEX and against LOWER under the definitional instance LOWER(a,b) == LEX(a,b).
+
+Abstract view V = {it(i) -> sc(i) | i < n}.  WF: positions[it(i)] == i, dom(positions) == items, heap order not LOWER(sc(par i), sc(i)).
+"""
+import z3
 from vcgen.api import *  # noqa
+
 R = Registry("whatshap/priorityqueue.pyx", lang="cython")
+ENTRY = TUPLE(REF("Score"), INT)
+R.declare_class("Score", {"data": LIST(INT)})
+R.pointees.add("Score")
+R.declare_class("PriorityQueue", {"heap": LIST(ENTRY), "positions": DICT(INT, INT)})
+R.ctypes.update({"int": INT, "bool": BOOL, "bint": BOOL, "item_type": INT, "priority_type_ptr": REF("Score"), "queue_entry_type": ENTRY})
+P = ["C18", "C07"]
+
+LOWER_F = z3.Function("LOWER", z3.IntSort(), z3.IntSort(), z3.BoolSort())
+
+
+def swo_axioms():
+    a, b, c = z3.Ints("swo_a swo_b swo_c")
+    return [z3.ForAll([a], z3.Not(LOWER_F(a, a))),
+            z3.ForAll([a, b, c], z3.Implies(z3.And(LOWER_F(a, b), LOWER_F(b, c)), LOWER_F(a, c))),
+            z3.ForAll([a, b, c], z3.Implies(z3.And(z3.Not(LOWER_F(a, b)), z3.Not(LOWER_F(b, c))), z3.Not(LOWER_F(a, c))))]
+
+
+def H(eng, st, self=None):
+    q = eng.load_field_raw(st, self if self is not None else st.env["self"], "heap")
+    d = eng.load_field_raw(st, self if self is not None else st.env["self"], "positions")
+    sc = lambda i: ENTRY.dt.accessor(0, 0)(q.arr[i])
+    it = lambda i: ENTRY.dt.accessor(0, 1)(q.arr[i])
+    return q, d, sc, it
+
+
+def par(i):
+    return (i - 1) / 2
+
+
+@R.spec
+def LOWER(eng, st, a, b):
+    return LOWER_F(to_z3(a, REF("Score")), to_z3(b, REF("Score")))
+
+
+@R.spec
+def SWO(eng, st):
+    return swo_axioms()
+
+
+@R.spec
+def POSOK(eng, st, self):
+    q, d, sc, it = H(eng, st, self)
+    i, k = z3.Ints(fresh_name("i") + " " + fresh_name("k"))
+    return [q.len >= 0,
+            z3.ForAll([i], z3.Implies(z3.And(0 <= i, i < q.len), z3.And(d.dom[it(i)], d.map[it(i)] == i))),
+            z3.ForAll([k], z3.Implies(d.dom[k], z3.And(0 <= d.map[k], d.map[k] < q.len, it(d.map[k]) == k)))]
+
+
+@R.spec
+def ORDER(eng, st, self):
+    q, d, sc, it = H(eng, st, self)
+    i = z3.Int(fresh_name("i"))
+    return z3.ForAll([i], z3.Implies(z3.And(1 <= i, i < q.len), z3.Not(LOWER_F(sc(par(i)), sc(i)))))
+
+
+@R.spec
+def ORDER_EXCEPT_UP(eng, st, self, index):
+    """heap order on every edge except (parent(index), index); plus the grandparent condition for the children of index"""
+    q, d, sc, it = H(eng, st, self)
+    x = to_z3(index)
+    i = z3.Int(fresh_name("i"))
+    return [z3.ForAll([i], z3.Implies(z3.And(1 <= i, i < q.len, i != x), z3.Not(LOWER_F(sc(par(i)), sc(i))))),
+            z3.ForAll([i], z3.Implies(z3.And(1 <= i, i < q.len, par(i) == x, x >= 1), z3.Not(LOWER_F(sc(par(x)), sc(i)))))]
+
+
+@R.spec
+def ORDER_EXCEPT_DOWN(eng, st, self, index):
+    """heap order on every edge except those from index to its children; plus the grandparent condition"""
+    q, d, sc, it = H(eng, st, self)
+    x = to_z3(index)
+    i = z3.Int(fresh_name("i"))
+    return [z3.ForAll([i], z3.Implies(z3.And(1 <= i, i < q.len, par(i) != x), z3.Not(LOWER_F(sc(par(i)), sc(i))))),
+            z3.ForAll([i], z3.Implies(z3.And(1 <= i, i < q.len, par(i) == x, x >= 1), z3.Not(LOWER_F(sc(par(x)), sc(i)))))]
+
+
+@R.spec
+def VIEW_SAME(eng, st, self):
+    """the abstract view item -> score is the same as in the pre-state (entries only permuted)"""
+    q, d, sc, it = H(eng, st, self)
+    q0, d0, sc0, it0 = H(eng, st.old, st.old.env["self"])
+    k = z3.Int(fresh_name("k"))
+    return [q.len == q0.len,
+            z3.ForAll([k], d.dom[k] == d0.dom[k]),
+            z3.ForAll([k], z3.Implies(d0.dom[k], sc(d.map[k]) == sc0(d0.map[k])))]
+
+
+@R.spec
+def VIEW_UPDATED(eng, st, self, item, score):
+    """V' == V[item -> score]"""
+    q, d, sc, it = H(eng, st, self)
+    q0, d0, sc0, it0 = H(eng, st.old, st.old.env["self"])
+    x, s = to_z3(item), to_z3(score, REF("Score"))
+    k = z3.Int(fresh_name("k"))
+    return [z3.ForAll([k], d.dom[k] == z3.Or(d0.dom[k], k == x)),
+            sc(d.map[x]) == s,
+            z3.ForAll([k], z3.Implies(z3.And(d0.dom[k], k != x), sc(d.map[k]) == sc0(d0.map[k])))]
+
+
+@R.spec
+def VIEW_REMOVED(eng, st, self, item):
+    q, d, sc, it = H(eng, st, self)
+    q0, d0, sc0, it0 = H(eng, st.old, st.old.env["self"])
+    x = to_z3(item)
+    k = z3.Int(fresh_name("k"))
+    return [q.len == q0.len - 1,
+            z3.ForAll([k], d.dom[k] == z3.And(d0.dom[k], k != x)),
+            z3.ForAll([k], z3.Implies(z3.And(d0.dom[k], k != x), sc(d.map[k]) == sc0(d0.map[k])))]
+
+
+@R.spec
+def IS_MAX(eng, st, self, score):
+    """no queued score is above `score` (evaluated in the given state)"""
+    q, d, sc, it = H(eng, st, self)
+    i = z3.Int(fresh_name("i"))
+    return z3.ForAll([i], z3.Implies(z3.And(0 <= i, i < q.len), z3.Not(LOWER_F(to_z3(score, REF("Score")), sc(i)))))
+
+
+@R.spec
+def SWAPPED(eng, st, self, a, b):
+    q, d, sc, it = H(eng, st, self)
+    q0, d0, sc0, it0 = H(eng, st.old, st.old.env["self"])
+    x, y = to_z3(a), to_z3(b)
+    i, k = z3.Ints(fresh_name("i") + " " + fresh_name("k"))
+    return [q.len == q0.len,
+            z3.ForAll([i], z3.Implies(z3.And(0 <= i, i < q.len), q.arr[i] == z3.If(i == x, q0.arr[y], z3.If(i == y, q0.arr[x], q0.arr[i])))),
+            z3.ForAll([k], d.dom[k] == d0.dom[k])]
+
+
+@R.spec
+def LEX(eng, st, a, b):
+    """lexicographic order with 'proper prefix is smaller' on the two score vectors"""
+    da = eng.load_field_raw(st, a, "data")
+    db = eng.load_field_raw(st, b, "data")
+    k, j = z3.Ints(fresh_name("k") + " " + fresh_name("j"))
+    m = z3.If(da.len < db.len, da.len, db.len)
+    prefix_eq = lambda upto: z3.ForAll([j], z3.Implies(z3.And(0 <= j, j < upto), da.arr[j] == db.arr[j]))
+    return z3.Or(z3.Exists([k], z3.And(0 <= k, k < m, prefix_eq(k), da.arr[k] < db.arr[k])),
+                 z3.And(prefix_eq(m), da.len < db.len))
+
+
+# ------------------------------------------------------------------------------------------------ index helpers (inlined at call sites)
+R.contract("_parent", params={"index": INT}, returns=INT, inline=True, ensures=["result == (index - 1) // 2"], props=P)
+R.contract("_left_child", params={"index": INT}, returns=INT, inline=True, ensures=["result == 2 * index + 1"], props=P)
+R.contract("_right_child", params={"index": INT}, returns=INT, inline=True, ensures=["result == 2 * index + 2"], props=P)
+
+# ------------------------------------------------------------------------------------------------ score comparison
+R.contract("_vector_score_lower", params={"first": REF("Score"), "second": REF("Score")}, returns=BOOL,
+           requires=[("sizes", "len(first.data) >= 0 and len(second.data) >= 0")],
+           ensures=[("lexicographic", "result == LEX(first, second)"),
+                    ("abstract-order", "result == LOWER(first, second)")],
+           loops={0: dict(index="k", inv=[("equal-prefix", "forall(j, implies(0 <= j and j < k, first.data[j] == second.data[j]))")])},
+           extra={"assume": ["LOWER(first, second) == LEX(first, second)"]},
+           props=P)
+
+R.contract("PriorityQueue._score_lower", params={"self": REF("PriorityQueue"), "index1": INT, "index2": INT}, returns=BOOL,
+           requires=[("in-range", "0 <= index1 and index1 < len(self.heap) and 0 <= index2 and index2 < len(self.heap)"),
+                     ("scores-valid", "self.heap[index1].first is not None and self.heap[index2].first is not None and len(self.heap[index1].first.data) >= 0 and len(self.heap[index2].first.data) >= 0")],
+           ensures=[("order", "result == LOWER(self.heap[index1].first, self.heap[index2].first)")],
+           props=P)
+
+R.contract("PriorityQueue._swap", params={"self": REF("PriorityQueue"), "index1": INT, "index2": INT},
+           requires=[("in-range", "0 <= index1 and index1 < len(self.heap) and 0 <= index2 and index2 < len(self.heap)"), ("pos", "POSOK(self)")],
+           ensures=[("swapped", "SWAPPED(self, index1, index2)"), ("pos", "POSOK(self)")],
+           modifies=["PriorityQueue.heap", "PriorityQueue.positions"], props=P)
+
+SCORES_VALID = ("scores-valid", "forall(i, implies(0 <= i and i < len(self.heap), self.heap[i].first is not None and len(self.heap[i].first.data) >= 0))")
+
+R.contract("PriorityQueue._sift_up", params={"self": REF("PriorityQueue"), "index": INT},
+           requires=[("swo", "SWO()"), ("pos", "POSOK(self)"), ("in-range", "0 <= index and index < len(self.heap)"), ("order-except", "ORDER_EXCEPT_UP(self, index)"), SCORES_VALID],
+           ensures=[("pos", "POSOK(self)"), ("order", "ORDER(self)"), ("view-unchanged", "VIEW_SAME(self)"), SCORES_VALID],
+           modifies=["PriorityQueue.heap", "PriorityQueue.positions"], extra={"decreases": "index"}, props=P)
+
+R.contract("PriorityQueue._sift_down", params={"self": REF("PriorityQueue"), "index": INT},
+           requires=[("swo", "SWO()"), ("pos", "POSOK(self)"), ("in-range", "0 <= index and index < len(self.heap)"), ("order-except", "ORDER_EXCEPT_DOWN(self, index)"), SCORES_VALID],
+           ensures=[("pos", "POSOK(self)"), ("order", "ORDER(self)"), ("view-unchanged", "VIEW_SAME(self)"), SCORES_VALID],
+           modifies=["PriorityQueue.heap", "PriorityQueue.positions"], extra={"decreases": "len(self.heap) - index"}, props=P)
+
+WF = [("swo", "SWO()"), ("pos", "POSOK(self)"), ("order", "ORDER(self)"), SCORES_VALID]
+
+R.contract("PriorityQueue.c_push", params={"self": REF("PriorityQueue"), "score": REF("Score"), "item": INT},
+           requires=WF + [("new-item", "item not in self.positions"), ("score-valid", "len(score.data) >= 0")],
+           ensures=[("pos", "POSOK(self)"), ("order", "ORDER(self)"), ("view", "VIEW_UPDATED(self, item, score)"), ("size", "len(self.heap) == old(len(self.heap)) + 1"), SCORES_VALID],
+           modifies=["PriorityQueue.heap", "PriorityQueue.positions"], props=P)
+
+R.contract("PriorityQueue.c_pop", params={"self": REF("PriorityQueue")}, returns=ENTRY,
+           requires=WF + [("root-is-maximum", "implies(len(self.heap) > 0, IS_MAX(self, self.heap[0].first))")],
+           raises={"IndexError": "len(self.heap) == 0"},
+           ensures=[("pos", "POSOK(self)"), ("order", "ORDER(self)"),
+                    ("returns-queued-item-with-its-score", "old(result.second in self.positions) and old(self.heap[self.positions[result.second]].first) is result.first"),
+                    ("returns-a-maximum", "old(IS_MAX(self, result.first))"),
+                    ("view", "VIEW_REMOVED(self, result.second)"), SCORES_VALID],
+           modifies=["PriorityQueue.heap", "PriorityQueue.positions"], props=P)
+
+R.contract("PriorityQueue.c_change_score", params={"self": REF("PriorityQueue"), "item": INT, "c_new_score": REF("Score")},
+           requires=WF + [("present", "item in self.positions"), ("score-valid", "len(c_new_score.data) >= 0")],
+           ensures=[("pos", "POSOK(self)"), ("order", "ORDER(self)"), ("view", "VIEW_UPDATED(self, item, c_new_score)"), ("size", "len(self.heap) == old(len(self.heap))"), SCORES_VALID],
+           modifies=["PriorityQueue.heap", "PriorityQueue.positions"], locals={"position": INT, "c_old_score": REF("Score")}, props=P)
+
+R.contract("PriorityQueue.c_get_score_by_item", params={"self": REF("PriorityQueue"), "item": INT}, returns=REF("Score"),
+           requires=[("pos", "POSOK(self)")],
+           ensures=[("absent-gives-null", "implies(item not in self.positions, result is None)"),
+                    ("present-gives-score", "implies(item in self.positions, result is self.heap[self.positions[item]].first)")],
+           extra={"nullable_result": True}, props=P)
+
+R.contract("PriorityQueue.size", params={"self": REF("PriorityQueue")}, returns=INT, ensures=["result == len(self.heap)"], props=P)
+R.contract("PriorityQueue.c_is_empty", params={"self": REF("PriorityQueue")}, returns=BOOL, ensures=["result == (len(self.heap) == 0)"], props=P)
+
+
+# ------------------------------------------------------------------------------------------------ lemmas over the contracts
+def lemma_root_is_maximum_step():
+    """Inductive step of 'heap order => the root is a maximum': if no earlier entry is above the root's score... the statement for i follows from
+    the statement for par(i) < i, the heap-order edge (par i, i) and negative transitivity.  (The induction principle itself is meta-level.)"""
+    sc = z3.Function("lemma_sc", z3.IntSort(), z3.IntSort())
+    n, i, j = z3.Ints("lemma_n lemma_i lemma_j")
+    hyp = swo_axioms() + [
+        z3.ForAll([j], z3.Implies(z3.And(1 <= j, j < n), z3.Not(LOWER_F(sc((j - 1) / 2), sc(j))))),
+        z3.ForAll([j], z3.Implies(z3.And(0 <= j, j < i), z3.Not(LOWER_F(sc(0), sc(j))))),
+        0 <= i, i < n]
+    return hyp, {"inductive-step": z3.Not(LOWER_F(sc(0), sc(i))), "parent-is-smaller-index": z3.Implies(i >= 1, z3.And((i - 1) / 2 >= 0, (i - 1) / 2 < i))}
+
+
+def lemma_pop_sequence_non_increasing():
+    """History lemma over the per-operation contracts: if pop returns s1 (a maximum of view V1) and the next pop returns s2 from a view contained in
+    V1 minus the popped item, then s2 is not above s1."""
+    s1, s2 = z3.Ints("pop_s1 pop_s2")
+    inV1 = z3.Function("inV1", z3.IntSort(), z3.BoolSort())   # scores present in the first view
+    x = z3.Int("pop_x")
+    hyp = swo_axioms() + [z3.ForAll([x], z3.Implies(inV1(x), z3.Not(LOWER_F(s1, x)))), inV1(s2)]
+    return hyp, {"second-pop-not-above-first": z3.Not(LOWER_F(s1, s2))}
+
+
+R.lemmas.append(("priorityqueue.pyx:L#root-is-maximum", P, lemma_root_is_maximum_step))
+R.lemmas.append(("priorityqueue.pyx:L#pops-are-non-increasing", P, lemma_pop_sequence_non_increasing))
+
+
+def canary_pop_returns_minimum():
+    import copy
+    c = copy.copy(R.contracts["PriorityQueue._sift_up"])
+    c.requires = [r for r in c.requires if not (isinstance(r, tuple) and r[0] == "order-except")] + \
+        [("order-except", lambda eng, st: ORDER_EXCEPT_UP(eng, st, st.env["self"], st.env["index"])[:1])]    # grandparent condition dropped
+    return c
+
+
+R.canaries.append(("priorityqueue.pyx:canary#sift_up-without-grandparent-condition", canary_pop_returns_minimum))
